@@ -718,3 +718,48 @@ theorem prun_inv (faulty : Prop) (acts : List PAct) (s s' : PSys) (hinv : PInv f
     · simp at hrun
 
 end Tramp
+
+namespace Tramp
+
+/-- the truthful reply to a read carries its fact at the instant it is computed -/
+theorem servedFact_serveRead {ps : List Part} (wo : Option WPc) (faulty : Prop) (hnd : PartsNodup ps)
+    {q : PReq} {r : PReply} (hr : serveRead ps q = some r) : ServedFact ps wo faulty (q, r) := by
+  cases q with
+  | listPending =>
+    simp only [serveRead, Option.some.injEq] at hr; subst hr
+    simp only [ServedFact]
+    refine ⟨pendingIds_nodup hnd, ?_⟩
+    intro p hp hnot hpend
+    exact hnot (mem_pendingIds hp hpend)
+  | listComplete =>
+    simp only [serveRead, Option.some.injEq] at hr; subst hr
+    simp only [ServedFact]
+    refine ⟨fun x hx => mem_completePres hx, ?_⟩
+    intro hnil pend _ p hp hcomp
+    have := completePres_nil hnil p hp
+    rw [this] at hcomp; simp at hcomp
+  | waitPart id =>
+    simp only [serveRead] at hr
+    split at hr
+    · rename_i p hfind
+      have ⟨hp, hid⟩ := findPart_mem hfind
+      split at hr
+      · rename_i x hst
+        simp only [Option.some.injEq] at hr; subst hr
+        exact ⟨p, hp, hst⟩
+      · rename_i hst
+        simp only [Option.some.injEq] at hr; subst hr
+        simp only [ServedFact]
+        intro p' hp' hid'
+        have : p' = p := nodup_id_unique hnd hp' hp (by rw [hid', hid])
+        rw [this]; exact hst
+      · simp at hr
+    · simp at hr
+  | pay => simp [serveRead] at hr
+
+/-- a served fact does not mention the program counter unless it is a `listComplete` reply -/
+theorem servedFact_wpc_indep {ps : List Part} {w w' : Option WPc} {faulty : Prop} {q : PReq} {r : PReply}
+    (hq : q ≠ .listComplete) (h : ServedFact ps w faulty (q, r)) : ServedFact ps w' faulty (q, r) := by
+  cases q <;> cases r <;> simp only [ServedFact] at h ⊢ <;> first | exact h | exact absurd rfl hq
+
+end Tramp
